@@ -48,7 +48,7 @@ MatchesDocumented(s, sv, me, r) == MatchesDocumentedP(Placement(s, me), sv, me, 
 \* in the body only.
 RouteOKP(pl, sv, me, g, r) ==
   LET inBody == {[field |-> p.field, loc |-> IF p.loc = "query" THEN "body" ELSE p.loc] : p \in pl}
-      lenient == "D_client_query_in_body" \in Dev /\ g \in {"goclient", "tsclient", "tsserver"} /\ BodyVerb(VerbOf(me))
+      lenient == "D_client_query_in_body" \in Dev /\ g \in {"tsserver"} /\ BodyVerb(VerbOf(me))
   IN \/ MatchesDocumentedP(pl, sv, me, r)
      \/ /\ "D_default_route_split" \in Dev /\ ~HasPath(me)
         /\ r.verb = VerbOf(me) /\ r.placement = pl
